@@ -40,7 +40,7 @@ def clauses(kind, off, dims, s=SYMS):
     if len(dims) == 1:
         out += [('bias_offset: the bias starts right after the isize*tsize weights', f'(= {off} {s["wsize"]})'),
                 ('bias_size: the bias has tsize coefficients', f'(= {dims[0]} {s["tsize"]})'),
-                ('bias_end: the bias ends at size() of the parameter vector', f'(= (+ {off} {dims[0]}) {s["xsize"]})')]
+                ('bias_end: the bias ends at size() of the parameter vector', f'(= {dims[0]} (- {s["xsize"]} {off}))')]
     return out
 
 
